@@ -493,10 +493,11 @@ def _lit(node, src):
 class ScalarExec:
     FUN1 = {"np.sqrt": "sqrt", "np.exp": "exp", "np.sin": "sin", "np.arcsin": "asin", "np.abs": "Rabs", "abs": "Rabs",
             "np.cos": "cos", "np.log": "ln"}
-    FUN2 = {"np.maximum": "Rmax", "np.minimum": "Rmin"}
+    FUN2 = {"np.maximum": "Rmax", "np.minimum": "Rmin", "max": "Rmax", "min": "Rmin"}
 
-    def __init__(self, src, module_funcs, phi="Phi", qname="q"):
+    def __init__(self, src, module_funcs, phi="Phi", qname="q", binder="fun wx : R * R", sumname="sum_list"):
         self.src, self.funcs, self.phi, self.qname = src, module_funcs, phi, qname
+        self.binder, self.sumname = binder, sumname
         self.quad_r = None          # the argument of gauss_legendre_quad, once called
 
     def ev(self, e, env):
@@ -512,12 +513,22 @@ class ScalarExec:
             a = self.ev(e.operand, env)
             if isinstance(e.operand, ast.Constant) and a.shape == "S":
                 return RV("S", "(-%s)" % a.term if not a.term.startswith("(") else "(- %s)" % a.term)
+            if isinstance(a, tuple):
+                return tuple(RV("S", "(- %s)" % x.term) for x in a)
             return RV(self.val_shape(e, a), "(- %s)" % a.term)
         if isinstance(e, ast.BinOp):
             a, b = self.ev(e.left, env), self.ev(e.right, env)
+            if isinstance(e.op, ast.Pow):
+                if isinstance(e.right, ast.Constant) and e.right.value == 2:
+                    if isinstance(a, tuple):
+                        return tuple(RV("S", "(%s * %s)" % (x.term, x.term)) for x in a)
+                    return RV(self.val_shape(e, a), "(%s * %s)" % (a.term, a.term))
+                _fail(e, "power other than ** 2")
             sym = {ast.Add: "+", ast.Sub: "-", ast.Mult: "*", ast.Div: "/"}.get(type(e.op))
             if sym is None:
                 _fail(e, "operator outside the subset")
+            if isinstance(a, tuple) and isinstance(b, tuple) and len(a) == len(b) == 2 and sym in "+-":
+                return tuple(self.arith(e, sym, x, y) for x, y in zip(a, b))
             return self.arith(e, sym, a, b)
         if isinstance(e, ast.Compare) and len(e.ops) == 1:
             a, b = self.ev(e.left, env), self.ev(e.comparators[0], env)
@@ -549,6 +560,9 @@ class ScalarExec:
         if isinstance(e, ast.Call):
             return self.call(e, env)
         _fail(e, "expression outside the subset: %s" % type(e).__name__)
+
+    def whole_var(self):
+        return self.binder.split()[1]
 
     def val_shape(self, e, a):
         if isinstance(a, tuple) or a.shape not in ("S", "Q"):
@@ -601,7 +615,16 @@ class ScalarExec:
             a = self.ev(args[0], env)
             if a.shape != "Q":
                 _fail(e, "np.sum(axis=1) of something that does not range over the quadrature nodes")
-            return RV("S", "(sum_list (map (fun wx : R * R => %s) %s))" % (a.term, self.qname))
+            return RV("S", "(%s (map (%s => %s) %s))" % (self.sumname, self.binder, a.term, self.qname))
+        if f == "np.sum" and len(args) == 1 and not e.keywords:
+            a = self.ev(args[0], env)
+            if isinstance(a, tuple) and len(a) == 2 and all(x.shape == "S" for x in a):
+                return RV("S", "(%s + %s)" % (a[0].term, a[1].term))          # sum of a 2-vector
+            if not isinstance(a, tuple) and a.shape == "Q":
+                if a.term == self.whole_var():
+                    return RV("S", "(%s %s)" % (self.sumname, self.qname))      # np.sum(l)
+                return RV("S", "(%s (map (%s => %s) %s))" % (self.sumname, self.binder, a.term, self.qname))
+            _fail(e, "np.sum outside the subset")
         if f == "np.where" and len(args) == 3 and not e.keywords:
             c, a, b = (self.ev(x, env) for x in args)
             if c.shape not in ("B", "BQ"):
@@ -717,7 +740,8 @@ def _params(g):
     return [a.arg for a in g.args.args]
 
 
-def scalar_regen(repo):
+def kernel_regen(repo):
+    """persim/images_kernels.py: uniform, sbvn_cdf, gauss_legendre_quad, bvn_cdf (+ the text of norm_cdf and of gaussian's dispatch)."""
     defs, obls = [], []
     src, tree, F = _module(repo, "persim/images_kernels.py")
 
@@ -824,7 +848,15 @@ def scalar_regen(repo):
                  "src_bvn_cdf Phi x y mu_x mu_y sigma_xx sigma_yy sigma_xy = bvn_cdf Phi x y mu_x mu_y sigma_xx sigma_yy sigma_xy",
                  "images_kernels.bvn_cdf", g.lineno))
 
-    # ---- weights
+    return _scalar_text(defs, obls, "src_uniform src_sbvn_cdf src_bvn_cdf")
+
+
+def weight_regen(repo):
+    """persim/images_weights.py: linear_ramp (loop body), persistence (text)."""
+    defs, obls = [], []
+
+    def S(t):
+        return RV("S", t)
     srcw, treew, W = _module(repo, "persim/images_weights.py")
     g = W["linear_ramp"]
     if _params(g) != ["birth", "pers", "low", "high", "start", "end"]:
@@ -850,8 +882,194 @@ def scalar_regen(repo):
             ast.dump(body[0].value) != ast.dump(ast.parse("pers ** n", mode="eval").body):
         raise Unsupported("line %d: persistence is no longer `pers ** n`" % g.lineno)
 
+    return _scalar_text(defs, obls, "src_linear_ramp")
+
+
+def _scalar_text(defs, obls, unfold):
     text = SCALAR_HEADER + "\n".join(defs) + "\n\n"
-    text += "#[local] Hint Unfold src_uniform src_sbvn_cdf src_bvn_cdf src_linear_ramp : regen.\n"
+    text += "#[local] Hint Unfold %s : regen.\n" % unfold
+    for name, stmt, unit, line in obls:
+        text += "Lemma %s : %s.\nProof. regen_solve. Qed.\n" % (name, stmt)
+    return text, [(n, u, l) for n, _, u, l in obls]
+
+
+def scalar_regen(repo):
+    t1, o1 = kernel_regen(repo)
+    t2, o2 = weight_regen(repo)
+    return t1 + t2[len(SCALAR_HEADER):], o1 + o2
+
+
+# ===================================================================================== heat.py (C14)
+HEAT_HEADER = """(* GENERATED by harness/src2coq.py from persim/heat.py of the current tree *)
+From Coq Require Import Reals List Lra.
+From Persim Require Import Model.HeatM Model.KernelM Model.ImageM Corr.RegenTac.
+Import ListNotations.
+Open Scope R_scope.
+"""
+
+
+def _same(node, text, what):
+    if ast.dump(node) != ast.dump(ast.parse(text).body[0] if "\n" in text or "=" in text or text.startswith(("for", "return"))
+                                   else ast.parse(text, mode="eval").body):
+        _fail(node, "%s is no longer `%s`: %s" % (what, text, ast.unparse(node).split("\n")[0][:80]))
+
+
+def heat_regen(repo):
+    """persim/heat.py: the summand of the double loop as a function of two points, the loop nest, the normalisation,
+    and how heat() combines the three kernel values."""
+    src, tree, F = _module(repo, "persim/heat.py")
+    defs, obls = [], []
+
+    def S(t):
+        return RV("S", t)
+    g = F["evalHeatKernel"]
+    if _params(g) != ["dgm1", "dgm2", "sigma"]:
+        raise Unsupported("line %d: signature of evalHeatKernel changed" % g.lineno)
+    body = [st for st in g.body if not (isinstance(st, ast.Expr) and isinstance(st.value, ast.Constant))]
+    # kSigma = 0; I1 = np.array(dgm1); I2 = np.array(dgm2); for i ...: p = ...; for j ...: <inner>; return ...
+    if len(body) != 5:
+        raise Unsupported("line %d: evalHeatKernel: expected initialisation, two conversions, one loop nest, one return" % g.lineno)
+    _same(body[0], "kSigma = 0", "the accumulator initialisation")
+    _same(body[1], "I1 = np.array(dgm1)", "the conversion of dgm1")
+    _same(body[2], "I2 = np.array(dgm2)", "the conversion of dgm2")
+    outer = body[3]
+    if not (isinstance(outer, ast.For) and ast.unparse(outer.iter) == "range(I1.shape[0])" and ast.unparse(outer.target) == "i"
+            and not outer.orelse and len(outer.body) == 2):
+        raise Unsupported("line %d: evalHeatKernel: outer loop is no longer `for i in range(I1.shape[0])` over [p = ...; inner loop]" % outer.lineno)
+    _same(outer.body[0], "p = I1[i, 0:2]", "the point of the outer loop")
+    inner = outer.body[1]
+    if not (isinstance(inner, ast.For) and ast.unparse(inner.iter) == "range(I2.shape[0])" and ast.unparse(inner.target) == "j"
+            and not inner.orelse):
+        raise Unsupported("line %d: evalHeatKernel: inner loop is no longer `for j in range(I2.shape[0])`" % inner.lineno)
+    # the inner body: q, qc, kSigma += <term>
+    X = ScalarExec(src, F)
+    env = {"p": (S("(fst p)"), S("(snd p)")), "sigma": S("sigma")}
+    term = None
+    for st in inner.body:
+        if isinstance(st, ast.Assign) and ast.unparse(st.targets[0]) == "q":
+            _same(st, "q = I2[j, 0:2]", "the point of the inner loop")
+            env["q"] = (S("(fst q)"), S("(snd q)"))
+        elif isinstance(st, ast.Assign) and ast.unparse(st.targets[0]) == "qc":
+            _same(st, "qc = I2[j, 1::-1]", "the mirrored point")
+            env["qc"] = (S("(snd q)"), S("(fst q)"))
+        elif isinstance(st, ast.AugAssign) and isinstance(st.op, ast.Add) and ast.unparse(st.target) == "kSigma" and term is None:
+            term = X.ev(st.value, env)
+        else:
+            _fail(st, "evalHeatKernel: statement of the inner loop outside the subset")
+    if term is None or isinstance(term, tuple):
+        raise Unsupported("evalHeatKernel: no `kSigma += ...` in the inner loop")
+    defs.append("Definition src_kterm (sigma : R) (p q : R * R) : R := %s." % term.term)
+    obls.append(("regen_kterm", "forall sigma p q, src_kterm sigma p q = kterm sigma p q", "heat.evalHeatKernel (summand)", inner.lineno))
+    ret = body[4]
+    if not isinstance(ret, ast.Return):
+        raise Unsupported("evalHeatKernel does not end with a return")
+    r = X.ev(ret.value, {"kSigma": S("ks"), "sigma": S("sigma")})
+    defs.append("Definition src_knorm (sigma ks : R) : R := %s." % r.term)
+    obls.append(("regen_knorm", "forall sigma F G, src_knorm sigma (kloop sigma F G) = evalHeatKernel sigma F G",
+                 "heat.evalHeatKernel (normalisation)", ret.lineno))
+    g = F["heat"]
+    if _params(g) != ["dgm1", "dgm2", "sigma"]:
+        raise Unsupported("line %d: signature of heat changed" % g.lineno)
+    body = [st for st in g.body if not (isinstance(st, ast.Expr) and isinstance(st.value, ast.Constant))]
+    Xh = ScalarExec(src, F)
+    kcalls = {"evalHeatKernel(dgm1, dgm1, sigma)": "k11", "evalHeatKernel(dgm2, dgm2, sigma)": "k22",
+              "evalHeatKernel(dgm1, dgm2, sigma)": "k12", "evalHeatKernel(dgm2, dgm1, sigma)": "k21"}
+    orig_call = Xh.call
+
+    def call(e, env):
+        t = ast.unparse(e)
+        if t in kcalls:
+            return S(kcalls[t])
+        return orig_call(e, env)
+    Xh.call = call
+    r = Xh.run(body, {"sigma": S("sigma")})
+    if r is None or isinstance(r[1], tuple):
+        raise Unsupported("heat does not return a scalar")
+    defs.append("Definition src_heat_combine (k11 k22 k12 k21 : R) : R := %s." % r[1].term)
+    obls.append(("regen_heat", "forall sigma F G, src_heat_combine (evalHeatKernel sigma F F) (evalHeatKernel sigma G G) "
+                 "(evalHeatKernel sigma F G) (evalHeatKernel sigma G F) = heat sigma F G", "heat.heat", g.lineno))
+    text = HEAT_HEADER + "\n".join(defs) + "\n\n#[local] Hint Unfold src_kterm src_knorm src_heat_combine kterm sqdist mirror evalHeatKernel heat radicand : regen.\n"
+    for name, stmt, unit, line in obls:
+        text += "Lemma %s : %s.\nProof. regen_solve. Qed.\n" % (name, stmt)
+    return text, [(n, u, l) for n, _, u, l in obls]
+
+
+# ===================================================================================== persistent_entropy.py (C16)
+ENTROPY_HEADER = """(* GENERATED by harness/src2coq.py from persim/persistent_entropy.py of the current tree *)
+From Coq Require Import Reals List Lra.
+From Persim Require Import Model.EntropyM Model.KernelM Model.ImageM Corr.RegenTac.
+Import ListNotations.
+Open Scope R_scope.
+"""
+
+
+def entropy_regen(repo):
+    """persim/persistent_entropy.py: Step 2 (lengths, positivity test, Shannon entropy, normalisation) as functions of the
+    list of bar lengths; Step 1 (infinite bars) is pinned as text."""
+    src, tree, F = _module(repo, "persim/persistent_entropy.py")
+    g = F["persistent_entropy"]
+    if _params(g) != ["dgms", "keep_inf", "val_inf", "normalize"]:
+        raise Unsupported("line %d: signature of persistent_entropy changed" % g.lineno)
+    body = [st for st in g.body if not (isinstance(st, ast.Expr) and isinstance(st.value, ast.Constant))]
+    want_head = [
+        "if isinstance(dgms, list) == False:\n    dgms = [dgms]",
+        "if keep_inf == False:\n    dgms = [(dgm[dgm[:, 1] != np.inf]) for dgm in dgms]",
+        "if keep_inf == True:\n    if val_inf != None:\n        dgms = [np.where(dgm == np.inf, val_inf, dgm) for dgm in dgms]\n    else:\n"
+        "        raise Exception('Remember: You need to provide a value to infinity bars if you want to keep them.')",
+        "ps = []",
+    ]
+    if len(body) != 6:
+        raise Unsupported("line %d: persistent_entropy: expected 6 top-level statements, found %d" % (g.lineno, len(body)))
+    for st, w in zip(body[:4], want_head):
+        if ast.dump(st) != ast.dump(ast.parse(w).body[0]):
+            _fail(st, "Step 1 of persistent_entropy is no longer the modelled text: %s" % ast.unparse(st).split("\n")[0][:80])
+    loop = body[4]
+    if not (isinstance(loop, ast.For) and ast.unparse(loop.target) == "dgm" and ast.unparse(loop.iter) == "dgms" and len(loop.body) == 2):
+        _fail(loop, "Step 2 is no longer a loop over the diagrams with [l = ...; if all(l > 0): ... else: raise]")
+    _same(loop.body[0], "l = dgm[:, 1] - dgm[:, 0]", "the bar lengths")
+    cond = loop.body[1]
+    if not (isinstance(cond, ast.If) and ast.unparse(cond.test) == "all(l > 0)" and len(cond.orelse) == 1
+            and isinstance(cond.orelse[0], ast.Raise)):
+        _fail(cond, "the positivity test is no longer `if all(l > 0): ... else: raise`")
+    _same(body[5], "return np.array(ps)", "the result")
+    # the success branch: L, p, E, optional normalisation, ps.append(E)
+    X = ScalarExec(src, F, qname="l", binder="fun x : R", sumname="sumR")
+    env = {"l": RV("Q", "x")}
+    stmts = list(cond.body)
+    if not (isinstance(stmts[-1], ast.Expr) and ast.unparse(stmts[-1]) == "ps.append(E)"):
+        _fail(stmts[-1], "the entropy is no longer appended with ps.append(E)")
+    norm = None
+    for st in stmts[:-1]:
+        if isinstance(st, ast.If):
+            if ast.unparse(st.test) not in ("normalize == True", "normalize"):
+                _fail(st, "unexpected condition in Step 2")
+            norm = st
+            continue
+        if norm is not None:
+            _fail(st, "statement after the normalisation")
+        if not (isinstance(st, ast.Assign) and isinstance(st.targets[0], ast.Name)):
+            _fail(st, "Step 2: statement outside the subset")
+        X.assign(st.targets[0], st.value, env, st)
+    E = env.get("E")
+    if E is None or isinstance(E, tuple) or E.shape != "S":
+        raise Unsupported("Step 2 does not compute a scalar E")
+    defs = ["Definition src_shannon (l : list R) : R := %s." % E.term]
+    obls = [("regen_shannon", "forall l, src_shannon l = shannon l", "persistent_entropy (Shannon entropy of the lengths)", cond.lineno)]
+    if norm is None or len(norm.body) != 1 or norm.orelse:
+        raise Unsupported("Step 2: the normalisation branch is missing")
+    orig_call = X.call
+
+    def call(e, env2):
+        if ast.unparse(e) == "len(l)":
+            return RV("S", "(INR (length l))")
+        return orig_call(e, env2)
+    X.call = call
+    env2 = {"E": RV("S", "e"), "l": RV("Q", "x")}
+    X.assign(norm.body[0].targets[0], norm.body[0].value, env2, norm.body[0])
+    defs.append("Definition src_normalised (l : list R) (e : R) : R := %s." % env2["E"].term)
+    obls.append(("regen_normalised", "forall l, src_normalised l (shannon l) = entropy_val true l",
+                 "persistent_entropy (normalisation)", norm.lineno))
+    text = ENTROPY_HEADER + "\n".join(defs) + "\n\n#[local] Hint Unfold src_shannon src_normalised shannon entropy_val : regen.\n"
     for name, stmt, unit, line in obls:
         text += "Lemma %s : %s.\nProof. regen_solve. Qed.\n" % (name, stmt)
     return text, [(n, u, l) for n, _, u, l in obls]
